@@ -27,6 +27,9 @@ Next ==
                /\ Expect(e.conv = "cp437" /\ e.code # 0 => e.uni = Cp437ToUnicode[e.code + 1], "cp437-table", l, [code |-> e.code, uni |-> e.uni])
           [] e.ev = "typed" ->
                /\ Bump(7)
+               \* "converts to the emulation's code": CP437, ATASCII, Viewdata and Mode 7 keep the ASCII code of letters, digits and space
+               /\ Check((Alnum(e.ch) /\ e.conv \in {"cp437", "atascii", "viewdata", "mode7"}) => e.code = e.ch, "C18", "TypedCode", l,
+                        [conv |-> e.conv, page |-> e.page, ch |-> e.ch, code |-> e.code])
                /\ Check(Alnum(e.ch) => e.back = e.ch, "C18", "TypedRoundTrip", l, [conv |-> e.conv, page |-> e.page, fg |-> e.fg, bg |-> e.bg, ch |-> e.ch, code |-> e.code, back |-> e.back])
           [] OTHER -> Viol("TOOL", "unknown-event", l, e.ev)
   /\ l' = l + 1
